@@ -4,6 +4,7 @@
 import Influx.Lemmas.C36BloomSim
 import Influx.Lemmas.C36IDSetSim
 import Influx.Lemmas.C36RHHSim
+import Influx.Lemmas.C36RadixSim2
 
 namespace Influx.Props.C36
 open Influx.C36 Influx.Spec.C36
@@ -138,14 +139,50 @@ theorem idset_roundtrip {Bytes : Type} (enc : IDSet.Set → Bytes) (dec : Bytes 
 /-- The uint32 truncation is real: in the model (as in the code) adding 2^32+5 makes 5 a member. -/
 theorem idset_truncation_witness : IDSet.contains (IDSet.add [] (2 ^ 32 + 5)) 5 = true := by decide
 
-/-! ## The statement on the model's own traces -/
+/-! ## Radix tree (pkg/radix): a sorted association list
 
-/-- the part of the op language whose refinement proof is complete so far -/
-def Supported : Op → Prop
-  | .r _ => True
-  | .b _ => True
-  | .s _ => True
-  | _ => False
+`Radix.Node.rel n` is the list of (key suffix, value) pairs below a node in walk order;
+`Radix.Node.SW` the structural invariant (edge labels strictly ascending, every child's prefix
+starts with its label) — it tolerates the empty nodes `deletePrefix` leaves behind. -/
+
+/-- **Get refines the lookup in the association list.** -/
+theorem radix_get (n : Radix.Node) (k : Key) (h : Radix.Node.SW n) :
+    Radix.Node.get n k = Radix.lookup k (Radix.Node.rel n) := Radix.Node.get_rel n k h
+
+/-- **Iteration in key order**: the association list (hence the walk) is strictly ascending in
+    `bytes.Compare` order. -/
+theorem radix_sorted (n : Radix.Node) (h : Radix.Node.SW n) : Radix.SortedKV (Radix.Node.rel n) :=
+  Radix.Node.rel_sorted n h
+
+/-- **Insert refines insert-if-absent**: the invariant is kept; an existing key is left alone
+    and its value returned with `false`; a new key is added (and nothing else changes). -/
+theorem radix_insert (n : Radix.Node) (k s : Key) (v : Int) (h : Radix.Node.SW n) :
+    Radix.Node.SW (Radix.Node.insert n k s v).1 ∧
+    (∀ old, Radix.lookup k (Radix.Node.rel n) = some old → Radix.Node.insert n k s v = (n, ⟨old, false⟩)) ∧
+    (Radix.lookup k (Radix.Node.rel n) = none →
+      (Radix.Node.insert n k s v).2 = ⟨v, true⟩ ∧
+      ∀ p, p ∈ Radix.Node.rel (Radix.Node.insert n k s v).1 ↔ p ∈ Radix.Node.rel n ∨ p = (k, v)) := by
+  obtain ⟨h1, _, h3, h4⟩ := Radix.Node.insert_spec n k s v h
+  exact ⟨h1, h3, h4⟩
+
+/-- **DeletePrefix refines the filter**: exactly the pairs whose key has the prefix disappear,
+    their number is returned. -/
+theorem radix_delete_prefix (n : Radix.Node) (isRoot : Bool) (c : Nat) (rest : Key) (h : Radix.Node.SW n) :
+    Radix.Node.SW (Radix.Node.del n isRoot (c :: rest)).1 ∧
+    Radix.Node.rel (Radix.Node.del n isRoot (c :: rest)).1 =
+      (Radix.Node.rel n).filter (fun q => !Radix.pfx (c :: rest) q.1) ∧
+    (Radix.Node.del n isRoot (c :: rest)).2 + (Radix.Node.rel (Radix.Node.del n isRoot (c :: rest)).1).length =
+      (Radix.Node.rel n).length := by
+  obtain ⟨h1, h2, h3, _⟩ := Radix.Node.del_spec n isRoot c rest h
+  exact ⟨h1, h2, h3⟩
+
+/-- **Minimum / Maximum** are the first / last element of the walk as long as no node is empty
+    (`NE`: holds until the first `DeletePrefix`; afterwards see `C36_radix_full_fails`). -/
+theorem radix_min_max (n : Radix.Node) (h : Radix.Node.NE n) :
+    Radix.Node.min n = (Radix.Node.walk n).head? ∧ Radix.Node.max n = (Radix.Node.walk n).getLast? :=
+  ⟨Radix.Node.min_eq n h, Radix.Node.max_eq n h⟩
+
+/-! ## The statement on the model's own traces -/
 
 /-- well-formed op: its hashes are those of its key (`hf` for the hash map, `bh` for the bloom
     filter); load factors are at most 100; ids fit 32 bits -/
@@ -153,70 +190,150 @@ def WF (hf : Key → Nat) (bh : Key → Nat × Nat) : Op → Prop
   | .r o => ROp.WF hf o
   | .b o => BOp.WF bh o
   | .s o => SOp.WF o
-  | _ => True
+  | .t _ => True
 
-structure R (hf : Key → Nat) (bh : Key → Nat × Nat) (st : State) (sp : SpecState) : Prop where
+/-- no `Minimum`/`Maximum` after a `DeletePrefix` on the same tree (known finding);
+    `d` = a `DeletePrefix` may have run since the last `tnew` -/
+def MinMaxOK : Bool → List Op → Prop
+  | _, [] => True
+  | d, .t .min :: ops => d = false ∧ MinMaxOK d ops
+  | d, .t .max :: ops => d = false ∧ MinMaxOK d ops
+  | _, .t .new :: ops => MinMaxOK false ops
+  | _, .t (.del _) :: ops => MinMaxOK true ops
+  | d, _ :: ops => MinMaxOK d ops
+
+structure R (hf : Key → Nat) (bh : Key → Nat × Nat) (d : Bool) (st : State) (sp : SpecState) : Prop where
   r : RR hf st.map sp.rmap
   b : RB bh st.bf sp.bloom
+  t : RT st.tree sp.t
   s : RS st.sets sp.s
+  del : sp.t.deleted = true → d = true
 
-theorem R_init (hf bh) : R hf bh init {} := ⟨trivial, RB_init bh, RS_init⟩
+theorem R_init (hf bh d) : R hf bh d init {} := ⟨trivial, RB_init bh, rfl, RS_init, fun h => by cases h⟩
 
-theorem step_sim (hf bh) (st sp) (op : Op) (hR : R hf bh st sp) (hs : Supported op) (hwf : WF hf bh op)
-    (hns : ¬ Obs.stuck (step st op).2) :
-    (check sp op (step st op).2).2 = none ∧ R hf bh (step st op).1 (check sp op (step st op).2).1 := by
-  cases op with
-  | t o => cases hs
-  | r o =>
-    have := stepR_sim hf st.map sp.rmap o hR.r hwf hns
-    simp only [step, check]
-    exact ⟨this.1, ⟨this.2, hR.b, hR.s⟩⟩
-  | b o =>
-    have := stepB_sim bh st.bf sp.bloom o hR.b hwf
-    simp only [step, check]
-    exact ⟨this.1, ⟨hR.r, this.2, hR.s⟩⟩
-  | s o =>
-    have := stepS_sim st.sets sp.s o hR.s hwf
-    simp only [step, check]
-    exact ⟨this.1, ⟨hR.r, hR.b, this.2⟩⟩
-
-theorem firstFailure_run (hf bh) (ops : List Op) : ∀ (st sp), R hf bh st sp →
-    (∀ op ∈ ops, Supported op ∧ WF hf bh op) → (∀ x ∈ run st ops, ¬ Obs.stuck x.2) →
+theorem firstFailure_run (hf bh) (ops : List Op) : ∀ (d : Bool) (st sp), R hf bh d st sp →
+    (∀ op ∈ ops, WF hf bh op) → MinMaxOK d ops → (∀ x ∈ run st ops, ¬ Obs.stuck x.2) →
     firstFailure sp (run st ops) = none := by
   induction ops with
   | nil => intros; rfl
   | cons op ops ih =>
-    intro st sp hR hall hns
-    have h1 := hall op (by simp)
+    intro d st sp hR hall hmm hns
+    have hwf := hall op (by simp)
     have hns1 : ¬ Obs.stuck (step st op).2 := hns (op, (step st op).2) (by simp [run])
-    have := step_sim hf bh st sp op hR h1.1 h1.2 hns1
+    have hrest : ∀ o ∈ ops, WF hf bh o := fun o ho => hall o (by simp [ho])
+    have hnsrest : ∀ x ∈ run (step st op).1 ops, ¬ Obs.stuck x.2 := fun x hx => hns x (by simp [run, hx])
     simp only [run, firstFailure]
-    cases hc : check sp op (step st op).2 with
-    | mk sp' c =>
-      rw [hc] at this
-      simp only at this
-      obtain ⟨hnone, hR'⟩ := this
-      subst hnone
-      exact ih _ _ hR' (fun o ho => hall o (by simp [ho])) (fun x hx => hns x (by simp [run, hx]))
+    cases op with
+    | r o =>
+      have := stepR_sim hf st.map sp.rmap o hR.r hwf hns1
+      simp only [step, check] at this ⊢
+      cases hc : checkR sp.rmap o (stepR st.map o).2 with
+      | mk x c =>
+        rw [hc] at this
+        simp only at this
+        obtain ⟨hnone, hR'⟩ := this
+        subst hnone
+        exact ih d _ _ ⟨hR', hR.b, hR.t, hR.s, hR.del⟩ hrest (by cases o <;> exact hmm) hnsrest
+    | b o =>
+      have := stepB_sim bh st.bf sp.bloom o hR.b hwf
+      simp only [step, check] at this ⊢
+      cases hc : checkB sp.bloom o (stepB st.bf o).2 with
+      | mk x c =>
+        rw [hc] at this
+        simp only at this
+        obtain ⟨hnone, hR'⟩ := this
+        subst hnone
+        exact ih d _ _ ⟨hR.r, hR', hR.t, hR.s, hR.del⟩ hrest (by cases o <;> exact hmm) hnsrest
+    | s o =>
+      have := stepS_sim st.sets sp.s o hR.s hwf
+      simp only [step, check] at this ⊢
+      cases hc : checkS sp.s o (stepS st.sets o).2 with
+      | mk x c =>
+        rw [hc] at this
+        simp only at this
+        obtain ⟨hnone, hR'⟩ := this
+        subst hnone
+        exact ih d _ _ ⟨hR.r, hR.b, hR.t, hR', hR.del⟩ hrest (by cases o <;> exact hmm) hnsrest
+    | t o =>
+      have hok : TOp.okAt sp.t.deleted o := by
+        cases o <;> simp only [TOp.okAt]
+        · -- min
+          cases hdel : sp.t.deleted with
+          | false => rfl
+          | true => have := hR.del hdel; rw [this] at hmm; exact absurd hmm.1 (by simp)
+        · cases hdel : sp.t.deleted with
+          | false => rfl
+          | true => have := hR.del hdel; rw [this] at hmm; exact absurd hmm.1 (by simp)
+      have := stepT_sim st.tree sp.t o hR.t hok
+      simp only [step, check] at this ⊢
+      cases hc : checkT sp.t o (stepT st.tree o).2 with
+      | mk x c =>
+        rw [hc] at this
+        simp only at this
+        obtain ⟨hnone, hR'⟩ := this
+        subst hnone
+        -- how the "deleted" flag of the statement moves
+        have hdel' : ∀ d', (match o with | .new => d' = false | .del _ => d' = true | _ => d' = d) →
+            (x.deleted = true → d' = true) := by
+          intro d' hd' hx
+          have hxd : x.deleted = (checkT sp.t o (stepT st.tree o).2).1.deleted := by rw [hc]
+          cases o with
+          | new => rw [hxd] at hx; simp [checkT] at hx
+          | del p => exact hd'
+          | ins k v =>
+            rw [hd']; apply hR.del; rw [← hx, hxd]
+            simp only [checkT]; split <;> (try split) <;> rfl
+          | get k =>
+            rw [hd']; apply hR.del; rw [← hx, hxd]
+            simp only [checkT]; split <;> rfl
+          | min =>
+            rw [hd']; apply hR.del; rw [← hx, hxd]
+            simp only [checkT]; split <;> rfl
+          | max =>
+            rw [hd']; apply hR.del; rw [← hx, hxd]
+            simp only [checkT]; split <;> rfl
+          | len =>
+            rw [hd']; apply hR.del; rw [← hx, hxd]
+            simp only [checkT]; split <;> rfl
+          | walk =>
+            rw [hd']; apply hR.del; rw [← hx, hxd]
+            simp only [checkT]; split <;> rfl
+          | dump =>
+            rw [hd']; apply hR.del; rw [← hx, hxd]
+            simp only [checkT]; split <;> rfl
+        cases o with
+        | new => exact ih false _ _ ⟨hR.r, hR.b, hR', hR.s, hdel' false rfl⟩ hrest hmm hnsrest
+        | del p => exact ih true _ _ ⟨hR.r, hR.b, hR', hR.s, hdel' true rfl⟩ hrest hmm hnsrest
+        | min => exact ih d _ _ ⟨hR.r, hR.b, hR', hR.s, hdel' d rfl⟩ hrest hmm.2 hnsrest
+        | max => exact ih d _ _ ⟨hR.r, hR.b, hR', hR.s, hdel' d rfl⟩ hrest hmm.2 hnsrest
+        | ins k v => exact ih d _ _ ⟨hR.r, hR.b, hR', hR.s, hdel' d rfl⟩ hrest hmm hnsrest
+        | get k => exact ih d _ _ ⟨hR.r, hR.b, hR', hR.s, hdel' d rfl⟩ hrest hmm hnsrest
+        | len => exact ih d _ _ ⟨hR.r, hR.b, hR', hR.s, hdel' d rfl⟩ hrest hmm hnsrest
+        | walk => exact ih d _ _ ⟨hR.r, hR.b, hR', hR.s, hdel' d rfl⟩ hrest hmm hnsrest
+        | dump => exact ih d _ _ ⟨hR.r, hR.b, hR', hR.s, hdel' d rfl⟩ hrest hmm hnsrest
 
-/-- **C36 on the model (partial)**: for EVERY hash function `hf` of the hash map and every
-    pair of hash functions `bh` of the bloom filter, the statement checker accepts every trace
-    the model produces on well-formed ops.
-    PARTIAL: (1) restricted to the `Supported` ops (hash map, bloom filter, id sets so far);
-    (2) `WF`: ids below 2^32 (known finding: uint32 truncation), load factor ≤ 100;
-    (3) no model answer is `hang`/`panic` — by `rhh_put_total` that can only happen beyond a
-    capacity of 2^60 slots. -/
+/-- **C36 on the model**: for EVERY hash function `hf` of the hash map and every pair of hash
+    functions `bh` of the bloom filter, the statement checker accepts every trace the model
+    produces — all four structures, every op, unbounded.
+    Named `_partial` because of three explicit hypotheses, each the exact complement of a
+    known finding or a resource bound: (1) `WF`: hashes are those of the keys, load factor
+    ≤ 100, ids below 2^32 (`C36_idset_full_fails`); (2) `MinMaxOK`: no `Minimum`/`Maximum` after
+    a `DeletePrefix` (`C36_radix_full_fails`); (3) no model answer is `hang`/`panic` — by
+    `rhh_put_total` that needs a capacity beyond 2^60 slots. -/
 theorem C36_holdsOn_partial (hf : Key → Nat) (bh : Key → Nat × Nat) (ops : List Op)
-    (h : ∀ op ∈ ops, Supported op ∧ WF hf bh op) (hns : ∀ x ∈ run init ops, ¬ Obs.stuck x.2) :
+    (h : ∀ op ∈ ops, WF hf bh op) (hmm : MinMaxOK false ops) (hns : ∀ x ∈ run init ops, ¬ Obs.stuck x.2) :
     holdsOn (run init ops) = true := by
-  simp [holdsOn, firstFailure_run hf bh ops init {} (R_init hf bh) h hns]
+  simp [holdsOn, firstFailure_run hf bh ops false init {} (R_init hf bh false) h hmm hns]
 
 -- the hypotheses are met by non-trivial op sequences
 example : ∀ op ∈ [Op.r (.new 4 90), .r (.put [1] 5 7), .r (.get [1] 5), .b (.new 0 64 3), .b (.ins 0 [1, 2] 7 9),
-    .b (.has 0 [1, 2] 7 9), .s (.add 1 5), .s (.slice 1)],
-    Supported op ∧ WF (fun _ => 5) (fun _ => (7, 9)) op := by
+    .b (.has 0 [1, 2] 7 9), .s (.add 1 5), .s (.slice 1), .t .new, .t (.ins [97] 1), .t .min, .t (.del [97])],
+    WF (fun _ => 5) (fun _ => (7, 9)) op := by
   intro op h; simp at h
-  rcases h with rfl | rfl | rfl | rfl | rfl | rfl | rfl | rfl <;> simp [Supported, WF, ROp.WF, BOp.WF, SOp.WF]
+  rcases h with rfl | rfl | rfl | rfl | rfl | rfl | rfl | rfl | rfl | rfl | rfl | rfl <;>
+    simp [WF, ROp.WF, BOp.WF, SOp.WF]
+example : MinMaxOK false [Op.t .new, .t (.ins [97] 1), .t .min, .t (.del [97]), .t .walk] := by
+  simp [MinMaxOK]
 
 /-! ## Where the full statement fails (both reproduced on the real code by the check) -/
 
